@@ -245,6 +245,10 @@ func (m *Mirror) HandleProposedHeader(ctx context.Context, ph tmconsensus.Propos
 		return tmconsensus.HandleProposedHeaderMissingProposerPubKey
 	}
 
+	// Whether we already tried to apply the previous commit proof
+	// of a proposed header for the next height.
+	backfilledCommit := false
+
 RESTART:
 	req := tmi.PHCheckRequest{
 		PH:   ph,
@@ -278,7 +282,16 @@ RESTART:
 		// Cannot continue.
 		return tmconsensus.HandleProposedHeaderSignerUnrecognized
 	case tmi.PHCheckNextHeight:
+		if backfilledCommit {
+			// The header's previous commit proof did not move us to its height
+			// (insufficient, invalid, or for a block we do not have),
+			// so from our point of view the header is still in the future.
+			// Checking again can only give the same answer.
+			return tmconsensus.HandleProposedHeaderRoundTooFarInFuture
+		}
+
 		// Special case: we make an additional request to the kernel if the PH is for the next height.
+		backfilledCommit = true
 		m.backfillCommitForNextHeightPE(ctx, req.PH)
 		goto RESTART // TODO: find a cleaner way to apply the proposed block after backfilling commit.
 	case tmi.PHCheckRoundTooOld:
